@@ -88,7 +88,10 @@ def owners(field):
 
 
 def run(cmd, cwd=None, timeout=None, env=None):
-    p = subprocess.run(cmd, cwd=cwd, stdout=subprocess.PIPE, stderr=subprocess.STDOUT, timeout=timeout, env=env)
+    try:
+        p = subprocess.run(cmd, cwd=cwd, stdout=subprocess.PIPE, stderr=subprocess.STDOUT, timeout=timeout, env=env)
+    except subprocess.TimeoutExpired as ex:
+        return -9, f"TIMEOUT after {timeout}s: " + (ex.stdout or b"").decode("utf-8", "replace")[-500:]
     return p.returncode, p.stdout.decode("utf-8", "replace")
 
 
@@ -110,11 +113,16 @@ def strip_comments(text):
 def proof_obligations(prop, thorough):
     """Build the property's theorem module, re-check it, audit the axioms of every theorem in it."""
     info = {"module": f"EnrVerif.Props.{prop}", "theorems": [], "failed": []}
-    src = os.path.join(LEAN, "EnrVerif", "Props", f"{prop}.lean")
+    pdir = os.path.join(LEAN, "EnrVerif", "Props")
+    # the property's theorem module and any continuation modules Props/<prop><Suffix>.lean
+    files = sorted(f for f in os.listdir(pdir) if re.fullmatch(re.escape(prop) + r"[A-Za-z]*\.lean", f))
+    src = os.path.join(pdir, f"{prop}.lean")
     if not os.path.exists(src):
         info["failed"].append(f"missing {src}")
         return info
-    rc, out = run(["lake", "build", f"EnrVerif.Props.{prop}", "enr_model"], cwd=LEAN, timeout=3600)
+    modules = ["EnrVerif.Props." + f[:-5] for f in files]
+    info["modules"] = modules
+    rc, out = run(["lake", "build"] + modules + ["enr_model"], cwd=LEAN, timeout=3600)
     if rc != 0:
         info["failed"].append("lake build failed: " + out[-2000:])
         return info
@@ -124,12 +132,16 @@ def proof_obligations(prop, thorough):
         for i, line in enumerate(body.splitlines()):
             if BANNED.search(line):
                 info["failed"].append(f"banned construct in {os.path.relpath(f, LEAN)}: {line.strip()[:80]}")
-    names = re.findall(r"^theorem\s+([A-Za-z0-9_.'₁₂]+)", strip_comments(open(src).read()), flags=re.M)
+    names = []
+    for f in files:
+        names += re.findall(r"^theorem\s+([A-Za-z0-9_.'₁₂]+)", strip_comments(open(os.path.join(pdir, f)).read()), flags=re.M)
     audit_dir = os.path.join(OUT, prop)
     os.makedirs(audit_dir, exist_ok=True)
     audit = os.path.join(audit_dir, "Audit.lean")
     with open(audit, "w") as fh:
-        fh.write(f"import EnrVerif.Props.{prop}\nopen EnrVerif\n")
+        for m in modules:
+            fh.write(f"import {m}\n")
+        fh.write("open EnrVerif\n")
         for n in names:
             fh.write(f"#print axioms {n}\n")
     rc, out = run(["lake", "env", "lean", audit], cwd=LEAN, timeout=1800)
@@ -149,7 +161,7 @@ def proof_obligations(prop, thorough):
         if bad:
             info["failed"].append(f"{n} depends on {bad}")
     if thorough:
-        rc, out = run(["lake", "env", "leanchecker", f"EnrVerif.Props.{prop}"], cwd=LEAN, timeout=3600)
+        rc, out = run(["lake", "env", "leanchecker"] + modules, cwd=LEAN, timeout=3600)
         info["leanchecker_rc"] = rc
         if rc != 0:
             info["failed"].append("leanchecker: " + out[-800:])
@@ -201,7 +213,8 @@ def campaign(prop, fam, tier, seed, workdir):
         if f.startswith(f"{fam}-{seed}."):
             os.remove(os.path.join(workdir, f))
     t0 = time.time()
-    rc, out = run([HBIN, "gen", fam, tier, str(seed), prefix, str(NCHUNK)], timeout=7200)
+    # a call of the library that does not return shows up as a harness that does not finish
+    rc, out = run([HBIN, "gen", fam, tier, str(seed), prefix, str(NCHUNK)], timeout=1200 if tier == "quick" else 5400)
     if rc != 0:
         # the process died (a stack overflow or abort cannot be caught): when the family wrote its case
         # scripts first, the first case without a completed trace is the culprit
@@ -215,6 +228,8 @@ def campaign(prop, fam, tier, seed, workdir):
             culprit = (scripts[done] + "end\n") if done < len(scripts) else ""
             return {"fam": fam, "abort": {"rc": rc, "case_index": done, "script": culprit,
                                           "stderr": out[-400:]}}
+        if rc == -9:
+            return {"fam": fam, "error": "harness did not finish (a library call may not terminate): " + out[-300:], "timeout": True}
         return {"fam": fam, "error": "harness failed: " + out[-1500:]}
     traces = sorted(os.path.join(workdir, f) for f in os.listdir(workdir)
                     if f.startswith(f"{fam}-{seed}.") and f.endswith(".trace"))
@@ -371,9 +386,16 @@ def main():
         print(out[-3000:])
         sys.exit(2)
 
+    def fam_tier(fam):
+        # the exhaustive sweep over all 65536 ports (family acc, thorough) belongs to C14; the other
+        # properties that use the family run it at its quick size
+        if fam == "acc" and prop != "C14":
+            return "quick"
+        return tier
+
     if harness_ok:
         for fam in FAMILIES[prop]:
-            results.append(campaign(prop, fam, tier, a.seed, workdir))
+            results.append(campaign(prop, fam, fam_tier(fam), a.seed, workdir))
 
     def own_props(r):
         return [(p, l) for (p, l) in r.get("props", []) if l.startswith(f"PROP {prop} ")]
@@ -422,7 +444,8 @@ def main():
                 broken_tie.append(("harness process aborted", None, f"family {r['fam']} rc={r['abort']['rc']}"))
             continue
         if "error" in r:
-            broken_tie.append(("harness-or-driver-error", None, r["error"]))
+            kind = "C03: a library call did not return within the time limit" if (r.get("timeout") and prop == "C03") else "harness-or-driver-error"
+            broken_tie.append((kind, None, r["error"]))
         seen = set()
         for (p, l) in own_props(r):
             key = (tok(l, "pred"), tok(l, "ctx"))
@@ -443,7 +466,7 @@ def main():
     if broken_tie and not violations and harness_ok:
         for extra_seed in [a.seed + 101, a.seed + 202, a.seed + 303]:
             for fam in FAMILIES[prop]:
-                r = campaign(prop, fam, tier, extra_seed, workdir)
+                r = campaign(prop, fam, fam_tier(fam), extra_seed, workdir)
                 searched.append({"fam": fam, "seed": extra_seed})
                 for (p, l) in own_props(r):
                     record_violation("property predicate fails on the implementation (found by escalated search)", p, l)
